@@ -17,7 +17,7 @@ def fam(name, scripts, tier='quick', witness=False, w=2, opts=None, **kw):
         defs.append('%s=%s' % (k, v))
     if witness:
         defs.append('WITNESS=1')
-    o = {'max_viol': 400, 'time_limit': 280 if tier == 'quick' else 2400}
+    o = {'max_viol': 400, 'time_limit': 200 if tier == 'quick' else 2400}
     o.update(opts or {})
     return Family(name + ('-witness' if witness else ''), 'h_sim.c', 'h_sim', defs, opts=o, tier=tier, witness=witness, weight=w, validate=3)
 
@@ -69,13 +69,17 @@ FAMILIES['C05'] = [
 ]
 
 FAMILIES['C06'] = [
-    fam('resource-3-waiters', ['ACQ HOLD REL', 'HOLD ACQ REL', 'HOLD ACQ REL', 'HOLD ACQ REL'], PRIOSYM=1, w=8),
-    fam('resource-3-waiters', ['ACQ HOLD REL', 'HOLD ACQ REL', 'HOLD ACQ REL', 'HOLD ACQ REL'], PRIOSYM=1, witness=True, w=8),
+    fam('resource-2-waiters', ['ACQ HOLD REL', 'HOLD ACQ REL', 'HOLD ACQ REL'], PRIOSYM=1, w=8),
+    fam('resource-3-waiters-sameprio', ['ACQ HOLD REL', 'HOLD ACQ REL', 'HOLD ACQ REL', 'HOLD ACQ REL'], SAMEPRIO=1, w=8),
+    fam('resource-3-waiters', ['ACQ HOLD REL', 'HOLD ACQ REL', 'HOLD ACQ REL', 'HOLD ACQ REL'], tier='thorough', PRIOSYM=1, w=60),
+    fam('resource-2-waiters', ['ACQ HOLD REL', 'HOLD ACQ REL', 'HOLD ACQ REL'], PRIOSYM=1, witness=True, w=8),
     fam('resource-prio-change', ['ACQ HOLD REL', 'ACQ REL', 'ACQ REL', 'HOLD PRIO1 PRIO2'], PRIOSYM=1, w=6),
     fam('resource-waiter-leaves', ['ACQ HOLD REL', 'TADD ACQ REL', 'ACQ REL', 'ACQ REL'], PRIOSYM=1, w=8),
     fam('oq-getters', ['HOLD OPUT OPUT', 'OGET', 'OGET', 'HOLD OGET'], PRIOSYM=1, w=6),
-    fam('oq-putters', ['OPUT OPUT', 'HOLD OPUT', 'HOLD OPUT', 'HOLD HOLD OGET OGET OGET'], PRIOSYM=1, QCAP=1, w=8),
-    fam('pq-getters', ['HOLD QPUT QPUT QPUT', 'QGET', 'QGET', 'TADD QGET'], PRIOSYM=1, w=6),
+    fam('oq-putters', ['OPUT OPUT', 'HOLD OPUT', 'HOLD HOLD OGET OGET'], PRIOSYM=1, QCAP=1, w=8),
+    fam('oq-putters-4', ['OPUT OPUT', 'HOLD OPUT', 'HOLD OPUT', 'HOLD HOLD OGET OGET OGET'], tier='thorough', PRIOSYM=1, QCAP=1, w=60),
+    fam('pq-getters', ['HOLD QPUT QPUT', 'QGET', 'TADD QGET'], PRIOSYM=1, w=6),
+    fam('pq-getters-4', ['HOLD QPUT QPUT QPUT', 'QGET', 'QGET', 'TADD QGET'], tier='thorough', PRIOSYM=1, w=60),
     fam('barging', ['ACQ HOLD REL ACQ HOLD REL', 'HOLD ACQ REL', 'HOLD ACQ REL'], SAMEPRIO=1, w=3),
     fam('resource-4-waiters-prio', ['ACQ HOLD REL', 'HOLD ACQ HOLDZ REL', 'HOLD ACQ HOLDZ REL', 'HOLD ACQ PRIO2 REL'], tier='thorough', PRIOSYM=1, w=50),
 ]
@@ -101,11 +105,12 @@ FAMILIES['C08'] = [
     fam('resource-grant-vs-stop', ['ACQ HOLD REL', 'ACQ HOLD REL', 'ACQ HOLD REL', 'HOLD STOP1'], w=4),
     fam('resource-drop-on-exit', ['ACQ HOLD EXIT', 'TADD ACQ HOLD', 'ACQ REL'], w=3),
     fam('pool-rollback-first', ['PACQ HOLD PRELALL', 'PACQ HOLD', 'HOLD INTR1', 'PACQ HOLD PRELALL'], POOLCAP=3, w=10),
-    fam('pool-rollback-topup', ['PACQ HOLD PACQ HOLD PRELALL', 'PACQ HOLD PRELALL', 'HOLD INTR0', 'TADD PACQ HOLD'], POOLCAP=4, w=12),
+    fam('pool-rollback-topup', ['PACQ HOLD PACQ HOLD PRELALL', 'PACQ HOLD PRELALL', 'HOLD INTR0'], POOLCAP=4, w=12),
     fam('pool-leftovers', ['PACQ HOLD PRELALL', 'HOLD PACQ HOLD PRELALL', 'HOLD PACQ HOLD PRELALL'], POOLCAP=3, w=6),
     fam('pool-drop-on-stop', ['PACQ HOLD', 'PACQ HOLD PRELALL', 'HOLD STOP0', 'TADD PACQ'], w=6),
-    fam('buffer-chain', ['BPUT HOLD BPUT', 'TADD BGET HOLD', 'BGET'], BUFCAP=0, w=10),
-    fam('buffer-put-blocked', ['BPUT BPUT', 'HOLD BGET', 'TADD BPUT'], BUFCAP=2, w=8),
+    fam('buffer-chain', ['BPUT HOLD BPUT', 'TADD BGET BGET'], BUFCAP=2, w=10),
+    fam('buffer-chain-3', ['BPUT HOLD BPUT', 'TADD BGET HOLD', 'BGET'], tier='thorough', BUFCAP=2, w=60),
+    fam('buffer-put-blocked', ['BPUT BPUT', 'HOLD BGET', 'TADD BPUT'], BUFCAP=1, w=8),
     fam('oq-both-ends', ['OPUT OPUT HOLD OPUT', 'TADD OGET HOLD OGET', 'OGET'], QCAP=1, w=3),
     fam('pq-cancel-wakes-putter', ['QPUT QPUT HOLD', 'HOLD QCANCEL', 'HOLD QPUT QGET'], QCAP=1, w=3),
     fam('pq-both-ends', ['QPUT QPUT QPUT HOLD', 'HOLD QGET QGET', 'TADD QGET QCANCEL'], QCAP=2, w=4),
@@ -129,14 +134,17 @@ FAMILIES['C09'] = [
 ]
 
 FAMILIES['C11'] = [
-    fam('buffer-chain', ['BPUT HOLD BPUT', 'TADD BGET HOLD', 'BGET'], BUFCAP=0, w=10),
-    fam('buffer-chain', ['BPUT HOLD BPUT', 'TADD BGET HOLD', 'BGET'], BUFCAP=0, witness=True, w=10),
+    fam('buffer-chain', ['BPUT HOLD BPUT', 'TADD BGET BGET'], BUFCAP=2, w=10),
+    fam('buffer-chain-symcap', ['BPUT BPUT', 'BGET'], BUFCAP=0, w=6),
+    fam('buffer-chain-3', ['BPUT HOLD BPUT', 'TADD BGET HOLD', 'BGET'], tier='thorough', BUFCAP=0, w=60),
+    fam('buffer-chain', ['BPUT HOLD BPUT', 'TADD BGET BGET'], BUFCAP=2, witness=True, w=10),
     fam('buffer-unlimited', ['BPUT BPUT', 'TADD BGET BGET'], BUFCAP=-1, w=3),
-    fam('buffer-put-blocked', ['BPUT BPUT', 'HOLD BGET', 'TADD BPUT'], BUFCAP=2, w=8),
+    fam('buffer-put-blocked', ['BPUT BPUT', 'HOLD BGET', 'TADD BPUT'], BUFCAP=1, w=8),
     fam('buffer-get-interrupted', ['BPUT HOLD BPUT', 'BGET', 'HOLD INTR1'], BUFCAP=3, w=8),
     fam('buffer-put-stopped', ['BPUT BPUT HOLD', 'HOLD STOP0', 'WAITP0 BGET'], BUFCAP=2, w=4),
-    fam('buffer-full-range-2', ['BPUT HOLD', 'TADD BGET'], BUFCAP=3, BAMT_FULL=1, w=12, opts={'time_limit': 200}),
-    fam('buffer-full-range-unlimited', ['BPUT BPUT', 'BGET'], BUFCAP=-1, BAMT_FULL=1, w=12, opts={'time_limit': 200}),
+    fam('buffer-full-range-2', ['BPUT', 'BGET'], BUFCAP=3, BAMT_FULL=1, w=12),
+    fam('buffer-full-range-2t', ['BPUT HOLD', 'TADD BGET'], tier='thorough', BUFCAP=3, BAMT_FULL=1, w=60),
+    fam('buffer-full-range-unlimited', ['BPUT BPUT', 'BGET'], BUFCAP=-1, BAMT_FULL=1, w=12, opts={}),
     fam('buffer-full-range-3', ['BPUT HOLD BPUT', 'TADD BGET', 'BGET'], tier='thorough', BUFCAP=0, BAMT_FULL=1, w=60),
     fam('buffer-4', ['BPUT HOLD BPUT', 'BPUT', 'TADD BGET HOLD BGET', 'BGET'], tier='thorough', BUFCAP=0, w=60),
 ]
@@ -174,12 +182,12 @@ FAMILIES['C13'] = [
 FAMILIES['C14'] = [
     fam('rec-resource-pool', ['ACQ PACQ HOLD REL PRELALL', 'HOLD PACQ ACQ HOLD', 'HOLD EXIT'], REC=1, CONCRETE_D=1, w=5),
     fam('rec-resource-pool', ['ACQ PACQ HOLD REL PRELALL', 'HOLD PACQ ACQ HOLD', 'HOLD EXIT'], REC=1, CONCRETE_D=1, witness=True, w=5),
-    fam('rec-queues-buffer', ['OPUT QPUT HOLD OGET QGET', 'HOLD QPUT QCANCEL HOLD', 'BPUT HOLD BGET'], REC=1, CONCRETE_D=1, w=8),
+    fam('rec-queues-buffer', ['OPUT QPUT HOLD OGET QGET', 'HOLD QPUT QCANCEL HOLD', 'BPUT HOLD BGET'], REC=1, CONCRETE_D=1, BAMT_FULL=2, w=8),
     fam('rec-symbolic-times', ['ACQ PACQ HOLD REL PRELALL', 'HOLD PACQ ACQ HOLD', 'HOLD STOP1'], REC=1, w=4),
     fam('rec-preempt', ['ACQ PACQ HOLD', 'HOLD PREEMPT PPRE HOLD REL PRELALL'], REC=1, PRIOS='{0,1}', w=3),
     fam('rec-pool-rollback', ['PACQ HOLD PRELALL', 'PACQ HOLD', 'HOLD INTR1'], REC=1, POOLCAP=3, w=5),
     fam('rec-drop-on-stop', ['ACQ PACQ HOLD', 'HOLD STOP0', 'HOLD ACQ PACQ HOLD'], REC=1, CONCRETE_D=1, w=4),
-    fam('rec-buffer-partial', ['BPUT HOLD BPUT', 'TADD BGET HOLD', 'BGET'], REC=1, BUFCAP=2, w=8),
+    fam('rec-buffer-partial', ['BPUT HOLD BPUT', 'TADD BGET BGET'], REC=1, BUFCAP=2, CONCRETE_D=1, BAMT_FULL=2, w=8),
     fam('rec-same-instant', ['ACQ REL ACQ REL PACQ PRELALL', 'HOLDZ OPUT OGET QPUT QGET'], REC=1, CONCRETE_D=1, w=2),
     fam('rec-everything', ['ACQ PACQ HOLD REL PREL HOLD', 'HOLD PPRE ACQ HOLD', 'OPUT QPUT BPUT HOLD OGET QGET BGET', 'HOLD STOP0'], tier='thorough', REC=1, CONCRETE_D=1, PRIOS='{0,1,0,0}', w=60),
 ]
